@@ -162,6 +162,33 @@ CHECKS.update({
     ),
 })
 
+CHECKS.update({
+    "C05": dict(
+        category="exploration",
+        technique="exhaustive enumeration of every value of every tree of all decoder-DSL programs up to an op bound (decoded at the jq level from whole, byte-sliced and bit-sliced inputs and with a root array) and of every corpus file x format x truncation family; tobits/tobytes/._bits/._bytes, 7 bits_format renderings of every raw leaf and raw CLI stdout compared with the harness' own slice of the value's buffer",
+        text="Every value (3.5M in the quick tier) of every tree produced by (a) all decoder-DSL programs with <= 3 ops (thorough 4), nesting <= 3, on 2 inputs, also decoded from tobytes[1:], tobits[3:] and with a root array, incl. nested buffers derived as identity/complement/reverse of parent bits, and (b) every corpus file under format/*/testdata x {probe, the -d formats of its fqtests} x {intact, three truncations}: tobits, tobytes, ._bits, ._bytes are read back bit exactly and compared with the harness' slice (range of the value in the buffer it belongs to, zero bits prepended to a byte boundary); every raw leaf is rendered with every bits_format (string, hex, base64, byte_array, md5, truncate, snippet) and decoded back; process-like CLI runs (fq tobytes, fq -d bytes tobytes, fq '.field|tobytes') compare raw stdout with the file bytes.",
+        design_ref="§C05",
+        note="Trusted: the harness' bit slicer (src/c05/bits.go) and, for DSL trees, the reference interpreter's buffer contents; for real formats a nested buffer's contents are only known through fq (its root's own tobits), the contents themselves are C15's subject. A rendering of a range that is not a whole number of bytes may pad on either side. Quick skips trees above 20000 values / files above 256 KiB (counted in evidence).",
+        engine="enum",
+    ),
+    "C07": dict(
+        category="exploration",
+        technique="grammar-directed exhaustive enumeration of standard jq programs by operator count (size 0, 1, 2; thorough 3 over a reduced set) over a 17 value input pool, and full products of inputs x patterns x flags for every standard builtin fq redefines (found at run time by intersecting gojq's builtin table with fq's bundled jq definitions); differential against the same gojq fork run bare (Parse/Compile/Run without fq code), outputs and error positions compared",
+        text="L1: every program with <= 2 operator nodes of the standard grammar over the atom/operator sets recorded in evidence (101 atoms, 132 operators at size 1; 7 atoms x 57 operators at size 2; 697k programs, 11.9M (program, input) pairs in the quick tier) is evaluated by fq's interpreter (prelude in scope) and by bare gojq on every value of a 17 value pool; the sequence of outputs (canonical JSON, exact integers) and the output index of an error must agree. L2: every standard builtin that fq's bundled jq sources redefine (21 found at run time; a new redefinition without an argument pool fails the run) over full products of string inputs x regex patterns x flags, tojson/fromjson value products, debug/stderr/input/inputs. CLI section: programs run through interp.Main with --argjson and stdout parsed back (colorjson, display).",
+        design_ref="§C07",
+        note="Error message texts are not compared. Differences are classified by test, never by pattern: a difference counts as a recorded class only if a rewritten program (e.g. fromjson|tovalue, doubled backslashes in split's separator) agrees completely between the engines. A program on which the reference engine itself panics has no reference behaviour and gets no verdict (counted). Documented divergences (doc/usage.md) are explicit exceptions.",
+        engine="enum",
+    ),
+    "C12": dict(
+        category="exploration",
+        technique="exhaustive enumeration of every value of every tree of all decoder-DSL programs up to an op bound and of every corpus file x format x truncation family (topath/getpath/parent/parents/root/buffer_root/format_root/_index/_name against the shape found by descent, Go pointer identity through an accessor), and of every path array of length <= 3 (thorough 4) over an 18 element key alphabet for path_to_expr/expr_to_path",
+        text="(1) For every value of every tree (same tree space as C05: all DSL programs with <= 3 ops (thorough 4) on 2 inputs, also from byte/bit slices and with a root array; every corpus file x formats x truncations) the jq driver reports topath, root|getpath(topath), parent, parents, root, buffer_root, format_root, _index and _name; the harness descends the Go tree itself and requires that the reported path resolves to the same Go value, the parent holds the value under its name or index, parents is the chain to root, buffer_root/format_root are the nearest flagged ancestors, and gap fields appended to arrays carry their position as index. (2) every path array of length <= 3 over {identifiers, empty string, keys with spaces, quotes, backslashes, interpolation openers, newlines, NUL, dots, brackets, 0, 1, -1, 2^31}: path_to_expr | expr_to_path must be the identity.",
+        design_ref="§C12",
+        note="Trusted: the descent walker and the accessor exposing Go identity. _index of a struct field or of a parentless root is not judged. Known finding: path_to_expr prints an empty string key as nothing (narrow signature; any other round trip failure alarms).",
+        engine="enum",
+    ),
+})
+
 NOT_YET = {
 }
 
